@@ -31,6 +31,7 @@ META = {
         "a worker that makes no step for the grace period is treated as blocked on a lock (token handed back, schedule tagged degraded, no verdict from the time-out)",
     ],
     "prelude": False,
+    "threads_copy": False,
     "min_distinct": {"quick": 20000, "thorough": 400000},
     "shard_timeout": {"quick": 900, "thorough": 3600},
     "reach": False,
